@@ -188,7 +188,8 @@ def cmd_explain(args):
 
                 # Try treating query as a raw description for rule matching
                 amount = getattr(args, 'amount', None)
-                trace = explain_description(merchant_query, rules, amount=amount, transforms=transforms)
+                trace = explain_description(merchant_query, rules, amount=amount, transforms=transforms,
+                                            data_sources=supplemental_data)
                 if not trace['is_unknown']:
                     # It matched a rule - show the explanation
                     found_any = True
